@@ -64,7 +64,7 @@ theorem step_ctx_origin {s : State} (h : Inv s) (op : Op) (hw : WF s op)
           exact createCtx_new s id "" svc provs cons cap timeout super rep freq total inputOk true 0
       | modcreate id mod svc provs cons cap timeout super rep freq total inputOk running thr =>
         right
-        obtain ⟨_, hfresh, _⟩ : ¬ s.modAcct cons ∧ id ∉ s.usedIds ∧ mod ≠ "" := hw
+        obtain ⟨_, hfresh, hmodne, hconsne⟩ : ¬ s.modAcct cons ∧ id ∉ s.usedIds ∧ mod ≠ "" ∧ cons ≠ "" := hw
         exact ⟨id, hfresh, createCtx_ctxs s id mod svc provs cons cap timeout super rep freq total inputOk running thr,
           createCtx_new s id mod svc provs cons cap timeout super rep freq total inputOk running thr⟩
       | respond r pv code out => left; exact respond_evol s r pv code out
